@@ -253,6 +253,27 @@ def execFeat (o b : Nat) (t : Option Nat) : Nat → List FStmt → Graph → Opt
     | .link, none => .error .typeError
     | .stamp, _ => execFeat o b t fuel rest g ot
 
+/-! ## `H5Group.create_link`, statement by statement: a link is a second NAME of the target object, never a copy -/
+
+inductive CStmt where
+  /-- `self._create_h5obj()` (the group comes into being if it was only named so far) -/
+  | ensureObject
+  /-- `h5target = target._h5group.group`: the target's own HDF5 object -/
+  | bindTarget
+  /-- `if h5target.file != self.group.file: raise ValueError(...)` (one file in the model) -/
+  | refuseOtherFile
+  /-- `if name in self.group: del self.group[name]` -/
+  | dropExisting
+  /-- `self.group[name] = h5target`: HDF5 hard link to the object itself -/
+  | hardLink
+  deriving DecidableEq, Repr, Inhabited
+
+def execCreateLink (grp : Nat) (name : String) (t : Nat) : List CStmt → Graph → Graph
+  | [], g => g
+  | .dropExisting :: rest, g => execCreateLink grp name t rest (if g.hasChild grp name then g.delLink grp name else g)
+  | .hardLink :: rest, g => execCreateLink grp name t rest (g.addLink grp name t)
+  | _ :: rest, g => execCreateLink grp name t rest g
+
 /-! ## kept handles
 
 An entity handle (`H5Group`) is a parent group OBJECT, a link name in it, and the HDF5 object it opened.  Its
